@@ -1159,3 +1159,87 @@ Proof.
     destruct (size =? 1); [now apply sl_read_un_eq|]. destruct (size =? 2); [now apply sl_read_un_eq|].
     destruct (size =? 4); [now apply sl_read_un_eq|]. destruct (size =? 8); [now apply sl_read_un_eq|]. reflexivity.
 Qed.
+
+Lemma srun_cons dbg be dang root s op ops :
+  srun dbg be dang root s (op :: ops) =
+  (fst (srun dbg be dang root (fst (sstep dbg be dang root s op)) ops),
+   snd (sstep dbg be dang root s op) :: snd (srun dbg be dang root (fst (sstep dbg be dang root s op)) ops)).
+Proof.
+  unfold srun, sstep. cbn [grun].
+  destruct (gstep (sl_impl dbg dang) be root s op) as [c1 o]. cbn [fst snd].
+  destruct (grun (sl_impl dbg dang) be root c1 ops) as [c2 os]. reflexivity.
+Qed.
+
+Lemma kinds_agree_histories_lemma dbg be dang root ops : forall c,
+  Inv c -> Inv root -> Forall (fun op => op <> CEmpty) ops ->
+  srun dbg be dang (abs root) (abs c) ops =
+  (abs (fst (run dbg be root c ops)), map (rmap abs_val) (snd (run dbg be root c ops))).
+Proof.
+  induction ops as [|op ops IH]; intros c HI HIr HF.
+  - reflexivity.
+  - inversion HF as [|x xs Hop HF']; subst.
+    rewrite srun_cons, run_cons.
+    rewrite (kinds_agree_lemma dbg be dang root c op HI HIr) by (intros E; now apply Hop in E).
+    unfold abs_out. cbn [fst snd].
+    rewrite IH; [reflexivity | | exact HIr | exact HF'].
+    now apply inv_preserved_lemma.
+Qed.
+
+Lemma kinds_agree_refuted_lemma :
+  exists dbg be dang root c ops,
+    Inv c /\ Inv root /\ Sub root c /\
+    snd (srun dbg be dang (abs root) (abs c) ops) <> map (rmap abs_val) (snd (run dbg be root c ops)).
+Proof.
+  exists true, false, 1, (new [x01; x02] 65536), (new [x01; x02] 65536), [CEmpty; COffsetFromRoot].
+  split; [apply new_Inv|]. split; [apply new_Inv|]. split; [apply Sub_refl|].
+  intros H. vm_compute in H. discriminate H.
+Qed.
+
+(* ------------------------------------------------------------------ find *)
+Lemma position_spec b l i : position b l = Some i <-> first_occurrence b l i.
+Proof.
+  split.
+  - revert i. induction l as [|x l IH]; intros i; cbn [position]; [discriminate|].
+    destruct (b2n x =? b2n b) eqn:E.
+    + intros [= <-]. apply N.eqb_eq, b2n_inj in E. subst x.
+      exists [], l. repeat split. intros [].
+    + destruct (position b l) as [j|]; [|discriminate]. intros [= <-].
+      destruct (IH j eq_refl) as (pre & post & -> & Hn & HL).
+      exists (x :: pre), post. repeat split.
+      * intros [->|Hin]; [rewrite N.eqb_refl in E; discriminate | now apply Hn].
+      * cbn [length]. lia.
+  - intros (pre & post & -> & Hn & HL). revert i HL.
+    induction pre as [|x pre IH]; intros i HL; cbn [app position].
+    + rewrite N.eqb_refl. cbn in HL. now subst.
+    + destruct (b2n x =? b2n b) eqn:E.
+      * apply N.eqb_eq, b2n_inj in E. subst x. exfalso. apply Hn. now left.
+      * rewrite (IH (fun H => Hn (or_intror H)) (N.of_nat (length pre)) eq_refl).
+        f_equal. cbn [length] in HL. lia.
+Qed.
+
+Lemma position_none b l : position b l = None <-> ~ In b l.
+Proof.
+  induction l as [|x l IH]; cbn [position In]; [tauto|].
+  destruct (b2n x =? b2n b) eqn:E.
+  - apply N.eqb_eq, b2n_inj in E. subst x. split; [discriminate | intros H; exfalso; apply H; now left].
+  - destruct (position b l) as [j|].
+    + split; [discriminate|]. intros H. exfalso.
+      assert (Hn : ~ In b l) by (intros Hin; apply H; now right).
+      apply IH in Hn. discriminate.
+    + split; [|reflexivity]. intros _ [->|Hin]; [rewrite N.eqb_refl in E; discriminate|].
+      now apply (proj1 IH eq_refl).
+Qed.
+
+Lemma find_spec_lemma dbg be root c b :
+  Inv c ->
+  match snd (step dbg be root c (CFind b)) with
+  | Ok (VNum i) => first_occurrence b (bytes c) i
+  | Err EUnexpectedEof => ~ In b (bytes c)
+  | _ => False
+  end.
+Proof.
+  intros _. rewrite step_spec. cbn [spec_step snd].
+  destruct (position b (bytes c)) as [i|] eqn:P.
+  - now apply position_spec.
+  - now apply position_none.
+Qed.
